@@ -25,6 +25,7 @@ from vmc import sched, vfutures, vthreading, vtime
 
 OK, DEADLINE_BEFORE, DEADLINE_AFTER, KILL = 'ok', 'deadline-before', 'deadline-after', 'kill'
 KILL_OTHER = 'kill-other'
+RESTART = 'restart'      # a killed server comes up again (fresh process, same address)
 SLOW = 'slow-reply'      # not a fault: the reply arrives late (after quiescence)
 SLOW_SECS = 5.0
 
@@ -58,12 +59,13 @@ class Net:
     self.calls = []          # (address, method, answer)
     self.ncalls = {}         # (address, method) -> count
     self.on_kill = None      # callable(address) run when a server is killed
+    self.factories = {}      # address -> callable() building + starting a fresh server
     self.handler_threads = []
     self.exclude_methods = ('heartbeat',)
 
   def faults_for(self, address, method):
     kinds = [k for k in self.menu.get(method, self.menu.get('*', []))
-             if k != KILL_OTHER]
+             if k not in (KILL_OTHER, RESTART)]
     if not kinds:
       return []
     n = self.ncalls.get((address, method), 0)
@@ -165,6 +167,12 @@ class Client:
         if (a != addr and a.startswith('w') and a not in NET.dead
             and NET.servers[a]._started):
           kinds.append(KILL_OTHER + ':' + a)
+    # a killed worker may rejoin (a fresh server under the same address) at any
+    # RPC boundary
+    if RESTART in NET.menu.get('*', []):
+      for a in sorted(NET.dead):
+        if a in NET.factories:
+          kinds.append(RESTART + ':' + a)
     NET.ncalls[(addr, method)] = NET.ncalls.get((addr, method), 0) + 1
     idx = s.choose(len(kinds), kind=f'rpc:{method}') if len(kinds) > 1 else 0
     answer = kinds[idx]
@@ -173,6 +181,10 @@ class Client:
       kill(addr)
     elif answer.startswith(KILL_OTHER + ':'):
       kill(answer.split(':', 1)[1])
+      answer = OK
+    elif answer.startswith(RESTART + ':'):
+      a = answer.split(':', 1)[1]
+      restart(a, NET.factories[a])
       answer = OK
     server = NET.servers.get(addr)
     alive = (server is not None and server._started
